@@ -1,0 +1,13 @@
+//go:build verif
+
+package tiered
+
+// verifYieldHook, when set by the verification harness, is called at each
+// scheduling point of the flusher with the name of the point.
+var verifYieldHook func(point string)
+
+func verifYield(point string) {
+	if h := verifYieldHook; h != nil {
+		h(point)
+	}
+}
